@@ -27,6 +27,7 @@ def _tf(src, tmpl):
 
 class C31(Check):
     id = "C31"
+    thorough_pinned = True  # full thorough enumeration observed quiet on the unchanged tree
     level = "exploration"
     rule = (
         "pinned: every string over {a, LF, CR} up to length 8 (quick) / 11 (thorough) as source with a "
